@@ -45,6 +45,9 @@ CHECKS = {
   'C15': dict(category='other', technique='symbolic execution of the traced filter factories with symbolic strength parameters (z3 terms, exp uninterpreted) + QF_NRA queries on the exp-arguments; polynomial identities for application and Robert-Asselin',
               text='For ALL positive attenuation/scale/dt/tau: factors depend only on total wavenumber, equal 1 for the mean, lie in (0,1], are non-increasing, compose over half steps and follow the documented top-mode law (orders 1..18, cutoffs, both layouts, padded grids); application to pytrees is an elementwise product on spectral leaves and the identity on others; array strengths act slice-wise; Robert-Asselin identities for all r.',
               design='§3 C15'),
+  'C16': dict(category='other', technique='symbolic execution of the traced regridding code with symbolic grid bounds / surface pressure / fields (z3 terms with ite, sin uninterpreted) + QF_LRA / QF_NRA queries with cut-point abstraction; affine normal forms for concrete grid pairs',
+              text='Vertical: overlap lemmas for ALL strictly increasing source/target bounds (<= 6x5 cells), weights in [0,1] with unit row sums, hybrid-to-sigma regridding for ALL surface pressures in [400,1100] and fields (constants, convex combination, low-top models). Horizontal: latitude overlap identities for ALL increasing centres (<= 4x3), concrete grid pairs with ALL fields symbolic (constants, range, area integral), documented NaN rules on enumerated missing patterns.',
+              design='§3 C16'),
   'C13': dict(category='other', technique='symbolic execution of the traced jaxpr + QF_LRA queries (monomial abstraction for bilinear clauses)',
               text='Bounded symbolic verification of the sigma calculus identities for ALL column data and vertical velocities on each enumerated level set (even, dyadic uneven, seeded random), axis and shape.',
               design='§3 C13'),
